@@ -17,9 +17,9 @@ import (
 var debugForks = os.Getenv("SYMGO_DEBUG_FORKS") != ""
 
 type decision struct {
-	K byte  // 'b' branch, 'c' choice, 'v' picked value
-	V int64 // branch: 0/1; choice: index; value: the value
-	F bool  // forced (only one side feasible) — never flipped
+	K byte  `json:"k"` // 'b' branch, 'c' choice, 'v' picked value
+	V int64 `json:"v"` // branch: 0/1; choice: index; value: the value
+	F bool  `json:"f,omitempty"` // forced (only one side feasible) — never flipped
 }
 
 type outcomeKind int
